@@ -21,6 +21,8 @@ import build as B  # noqa: E402
 NCPU = os.cpu_count() or 4
 
 # property -> configuration.  parts: list of (flavour, fraction of the run budget re-run in that flavour)
+COLD_BASE = 10000000   # run indices of cold-start scenarios (one fresh process each)
+
 CONFIG = {
     "C01": dict(parts=[("plain", 1.0), ("asan", 0.15), ("vg", 0.02)], quick=2400, thorough=40000, chunk=40, timeout=120,
                 rule="one run = a seeded history of 15-200 operations (create/destroy/2D+3D batched and single-entry queries/size/distance, "
@@ -32,7 +34,7 @@ CONFIG = {
                      "area features with depth surfaces), one with the shipped shortcuts, one with a seeded subset of shortcut sites S1-S8 "
                      "disabled, asked the same placed/adaptive/uniform points. Non-trivial = at least one point was inside a feature "
                      "according to the un-culled world; distinct = distinct event-log hash."),
-    "C12": dict(parts=[("asan", 1.0), ("vg", 0.02)], quick=2400, thorough=60000, chunk=40, timeout=120,
+    "C12": dict(parts=[("asan", 1.0), ("vg", 0.02), ("tsan", 0.1)], quick=2400, thorough=60000, chunk=40, timeout=120, cold=("tsan", 48, 1200),
                 rule="one run = construct a world from a corpus/generated document after 0-3 structural mutations and under a seeded "
                      "file-layer fault plan (truncation, corruption, short reads, EINTR, EIO, open failure, change between opens) or an "
                      "allocation fault; then probe queries; then construction from the intact file. Non-trivial = a mutation or a fault "
@@ -143,6 +145,9 @@ def run_exec(binary, scenario, timeout=120, verbose=False, workdir=None):
         return res
     if not m:
         res["crashed"] = True
+        if rc == 81:
+            res["classes"] = [(prop + "/tsan", "tsan", "40 ThreadSanitizer reports, run stopped (see stderr of the replay)")]
+            return res
         what = "terminate" if "TERMINATE" in out else ("sanitizer" if rc == 77 else "signal/exit %d" % rc)
         res["classes"] = [(prop + "/crash", crash_site(err), what + ": " + summarise_stderr(err))]
         return res
@@ -272,9 +277,12 @@ class Minimiser:
         cand["files"] = {k: v for k, v in cand["files"].items() if k in used}
         if len(cand["files"]) < len(self.best["files"]) and self.fails(cand):
             self.best = cand
+        # an expectation computed by the generator from the document's content ("this text must be rejected")
+        # does not survive rewriting the document, so such documents are left as generated
+        judged_by_content = any(o.get("expect") in ("reject", "accept") for o in all_ops(self.best))
         for name in list(self.best["files"].keys()):
             v = self.best["files"][name]
-            if not (isinstance(v, dict) and "text" in v):
+            if judged_by_content or not (isinstance(v, dict) and "text" in v):
                 continue
             try:
                 doc = json.loads(v["text"])
@@ -510,12 +518,61 @@ def check(prop, tier, seed, runs_override=None, workers=None, repo="/repo", time
         for r, rc, err, kind in pool.crashes:
             cls = prop + "/" + kind
             site = crash_site(err) if kind == "crash" else "hang"
+            if rc == 81:
+                cls, site = prop + "/tsan", "tsan"   # the process stopped itself after 40 ThreadSanitizer reports
             e = viol.setdefault((cls, site), dict(run=r, flavour=flavour, detail="worker died (rc %s): %s" % (rc, summarise_stderr(err)), count=0))
             e["count"] += 1
         for r in pool.nondet:
             nondet.append((flavour, r))
         for r, info in pool.infos.items():
             walls.append(info.get("wall", 0))
+
+    # ---------------- cold-start scenarios: each one is the first thing a fresh process does
+    if cfg.get("cold") and time.time() < deadline:
+        flavour, nq, nt = cfg["cold"]
+        n = nq if tier == "quick" else nt
+        if runs_override:
+            n = max(4, int(n * runs_override / cfg[tier]))
+        binary = B.binary(repo, flavour)
+        tp = time.time()
+        gen = subprocess.run([B.binary(repo, cfg["parts"][0][0]), "gen", prop, str(seed), str(COLD_BASE), tier + "+cold", str(n)],
+                             stdout=subprocess.PIPE, stderr=subprocess.PIPE, env=child_env())
+        scs = [json.loads(l) for l in gen.stdout.decode("utf-8", "replace").splitlines() if l.startswith("{")]
+        cold_lock = threading.Lock()
+        todo = queue.Queue()
+        for sc in scs:
+            todo.put(sc)
+        done = [0]
+
+        def cold_worker():
+            while time.time() < deadline:
+                try:
+                    sc = todo.get_nowait()
+                except queue.Empty:
+                    return
+                r = run_exec(binary, sc, cfg["timeout"], workdir=outdir)
+                with cold_lock:
+                    done[0] += 1
+                    res = r.get("result") or {}
+                    for k, v in (res.get("counters") or {}).items():
+                        agg[k] += v
+                    agg["cold_start_runs"] += 1
+                    if res.get("hash"):
+                        nontrivial_hashes.add(res["hash"])
+                    if (res.get("sched") or {}).get("decisions", 0) > 0:
+                        interleavings.add(res["sched"]["trace"])
+                    for c, s_, d in r["classes"]:
+                        e = viol.setdefault((c, s_), dict(run=sc["run"], flavour=flavour, detail=d, count=0))
+                        if e["count"] == 0 and e["run"] == sc["run"]:
+                            json.dump(sc, open(os.path.join(outdir, "%s-%d-%d.json" % (prop, seed, sc["run"])), "w"))
+                        e["count"] += 1
+        ts = [threading.Thread(target=cold_worker, daemon=True) for _ in range(workers)]
+        for t in ts:
+            t.start()
+        for t in ts:
+            t.join()
+        total_runs += done[0]
+        per_flavour[flavour + "-cold-start"] = dict(runs=done[0], wall_s=round(time.time() - tp, 2), crashes=0)
 
     # ---------------- violations: minimise, gate, classify
     exit_code = 0
